@@ -91,7 +91,21 @@ def anchors_of(prop: str) -> List[Tuple[str, str, int, int]]:
     return out
 
 
+def dump(prop: str, shard) -> None:
+    """PVM_REACH_DUMP=<dir>: write the entered functions of this shard (tools/unreached.py lists what no check enters)."""
+    d = os.environ.get("PVM_REACH_DUMP")
+    if not d:
+        return
+    try:
+        os.makedirs(d, exist_ok=True)
+        with open(os.path.join(d, f"{prop}_{shard}_{os.getpid()}.json"), "w") as f:
+            json.dump(sorted([list(x) for x in _entered]), f)
+    except OSError:
+        pass
+
+
 def report(prop: str) -> Dict[str, object]:
+    dump(prop, "s")
     anchors = anchors_of(prop)
     by_file: Dict[str, List[Tuple[int, int]]] = {}
     for f, first, last in _entered:
